@@ -87,7 +87,10 @@ fn check_on(ont: &hpo::Ontology, f: &Facts, via: &str, stats: &mut Stats) -> Che
         let (a, b) = (&m.ids[ia], &m.ids[ib]);
         let ta = ont.hpo(*a).unwrap();
         {
-            if !huge && big && (ia * 31 + ib * 17) % 97 != 0 && !(ia < 3 || ib < 3 || ia + 3 >= n_ids || ib + 3 >= n_ids) {
+            // (beyond 700 terms the stride is 64 times wider and only every 53rd of the border pairs is asked)
+            let very_big = n_ids > 700;
+            let border = ia < 3 || ib < 3 || ia + 3 >= n_ids || ib + 3 >= n_ids;
+            if !huge && big && (ia * 31 + ib * 17) % (if very_big { 97 * 64 } else { 97 }) != 0 && !(border && (!very_big || (ia + ib) % 53 == 0)) {
                 continue;
             }
             let (tmp_a, tmp_b);
